@@ -362,6 +362,11 @@ func clipSig(s string) string {
 func c04HeaderProbe(c *Case, src *vs.Src, p *c04Params, env *Env, cc, sc *EPConf, r *Result, sigp string) {
 	dirS2C := src.Intn(2) == 1
 	api := pickStr(src, []string{"readfrom", "read"})
+	// the three records straddle a power of two of the 48-bit record sequence number (0: they do not)
+	var seqBase uint64
+	if e := pickInt(src, []int{0, 0, 16, 24, 32, 40}); e > 0 {
+		seqBase = 1<<uint(e) - 2
+	}
 	w := NewWorld(c.Seed+7, src)
 	w.K.MaxElapsed = 60 * time.Second
 	env.W = w
@@ -393,6 +398,9 @@ func c04HeaderProbe(c *Case, src *vs.Src, p *c04Params, env *Env, cc, sc *EPConf
 		handshook++
 		vs.Block(func() bool { return handshook == 2 }, time.Time{})
 		holding = true
+		if seqBase > 0 {
+			dtlcp.VerifSetWriteSeq(sender, seqBase)
+		}
 		for _, b := range payloads {
 			if _, err := sender.WriteTo(b, sender.RemoteAddr()); err != nil {
 				sErr = err
@@ -465,9 +473,22 @@ func c04HeaderProbe(c *Case, src *vs.Src, p *c04Params, env *Env, cc, sc *EPConf
 		r.Violate("probe-setup", sigp+" header-probe setup", "header probe: run ended with %q (unfinished %v), sender %v, receiver %v, %d records captured", reason, unf, sErr, rErr, len(held))
 		return
 	}
+	if seqBase > 0 {
+		for i, d := range held {
+			if len(d.Data) >= 13 {
+				var hs uint64
+				for _, b := range d.Data[5:11] {
+					hs = hs<<8 | uint64(b)
+				}
+				if hs != seqBase+uint64(i) {
+					r.Violate("header-seq", sigp+" header-sequence-number", "record #%d after the write sequence number was moved to %#x carries sequence number %#x in its header", i, seqBase, hs)
+				}
+			}
+		}
+	}
 	want := []string{string(payloads[0]), string(payloads[1]), string(payloads[2])}
 	if strings.Join(got, "|") != strings.Join(want, "|") || !isTimeout(endErr) {
-		r.Violate("header-auth", sigp+" header-field-not-authenticated "+api, "after copies of the first record with type / version / epoch / sequence number / length changed in the header, followed by the three genuine records, %s delivered %q and ended with %v; expected exactly the three genuine payloads and then the read deadline", api, got, endErr)
+		r.Violate("header-auth", sigp+" header-field-not-authenticated "+api, "after copies of the first record with type / version / epoch / sequence number / length changed in the header, followed by the three genuine records (sequence numbers from %#x), %s delivered %q and ended with %v; expected exactly the three genuine payloads and then the read deadline", seqBase, api, got, endErr)
 	}
 	r.Stat("header_probe", 1)
 }
